@@ -1,6 +1,6 @@
 (* correspondence glue for C08: the Go hash trees and verifiers against the reference construction,
    run with the executable SHA-256 *)
-From V Require Export Base.Hex Merkle.Sha256 Merkle.RefPath Merkle.Main.
+From V Require Export Base.Hex Merkle.Sha256 Merkle.RefPath Merkle.Main Merkle.AHT.
 
 Definition Hs := sha256.
 Definition mroot (l : list bytes) : bytes := mth Hs l.
@@ -13,10 +13,34 @@ Fixpoint prefixes_roots (n : nat) (l : list bytes) (k : N) : list bytes :=
 
 Definition lbytes_eqb := list_eqb bytes_eqb.
 
+(* index into the digest log recorded by the harness (N counter: an out-of-range index stays cheap) *)
+Fixpoint nthN (l : list bytes) (i : N) : res bytes :=
+  match l with
+  | [] => Err 0
+  | x :: r => if i =? 0 then Ok x else nthN r (i - 1)
+  end.
+Fixpoint nthsN (l : list bytes) (is_ : list N) : res (list bytes) :=
+  match is_ with
+  | [] => Ok []
+  | i :: r => do x <- nthN l i; do xs <- nthsN l r; Ok (x :: xs)
+  end.
+Fixpoint roots_ok (t : aht) (digs : list bytes) (n : N) (roots : list N) : bool :=
+  match roots with
+  | [] => true
+  | ix :: r => res_eqb bytes_eqb (root_at t n) (nthN digs ix) && roots_ok t digs (n + 1) r
+  end.
+
 Inductive case :=
 | CSha (inp out : bytes)
 (* final payloads of an AHtree after a history of append/reset/sync/reopen; RootAt(1..n) *)
 | CAht (payloads : list bytes) (roots : list bytes)
+(* the same history run on the digest-log model (Merkle/AHT.v): `digests` = what nodeAt returns for
+   every index below dLogSize; RootAt(1..n) and InclusionProof/ConsistencyProof(i,j) as indices
+   into `digests` *)
+| CAhtModel (ops : list aop) (digests : list bytes) (roots : list N)
+            (iproofs cproofs : list (N * N * list N))
+(* (n, nodesUpto n, nodesUntil n, levelsAt n) *)
+| CAhtArith (rows : list (N * N * N * N))
 (* AHtree.InclusionProof(i,j) on a tree holding `payloads` *)
 | CInclProof (payloads : list bytes) (i j : N) (proof : list bytes)
 | CVerIncl (terms : list bytes) (i j : N) (leaf root : bytes) (verdict : bool)
@@ -32,6 +56,16 @@ Definition case_ok (c : case) : bool :=
   match c with
   | CSha i o => bytes_eqb (Hs i) o
   | CAht p roots => lbytes_eqb (prefixes_roots (length p) p 1) roots
+  | CAhtModel ops digs roots ips cps =>
+      let t := aht_run Hs ops in
+      (dsize t =? lenN digs) && (lenN roots =? size t) &&
+      lbytes_eqb (firstn (N.to_nat (dsize t)) (dlog t)) digs &&
+      roots_ok t digs 1 roots &&
+      forallb (fun '(i, j, ix) => res_eqb lbytes_eqb (inclusion_proof t i j) (nthsN digs ix)) ips &&
+      forallb (fun '(i, j, ix) => res_eqb lbytes_eqb (consistency_proof t i j) (nthsN digs ix)) cps
+  | CAhtArith rows =>
+      forallb (fun '(n, up, un, lv) =>
+                 (nodes_upto n =? up) && (nodes_until n =? un) && (levels_at n =? lv)) rows
   | CInclProof p i j proof =>
       (* the Go prover returns the RFC 6962 audit path AND the honest path of the completeness theorem *)
       lbytes_eqb (ref_inclusion_proof Hs p i j) proof &&
@@ -41,6 +75,9 @@ Definition case_ok (c : case) : bool :=
   | CVerCons t i j ir jr v => res_eqb Bool.eqb (verify_consistency Hs t i j ir jr) v
   | CHtRoot ds root =>
       bytes_eqb (match ds with [] => Hs [] | _ => mroot ds end) root
-  | CHtProof ds i terms => lbytes_eqb (audit Hs (mk_tree ds) i) terms
+  | CHtProof ds i terms =>
+      (* the RFC 6962 audit path AND the honest path of C08_htree_inclusion_complete *)
+      lbytes_eqb (audit Hs (mk_tree ds) i) terms &&
+      lbytes_eqb (honest_inclusion_proof Hs ds (i + 1)) terms
   | CHtVer leaf width t d root v => Bool.eqb (htree_verify_inclusion Hs leaf width t d root) v
   end.
